@@ -13,12 +13,15 @@
 //!   c15.hw            the hand-written pairs with a Lean model of their own (Model/Handwritten2.lean): MaybeNamedDest,
 //!                       NumberTree, NameTree (read side), CidToGidMap, AppearanceStreamEntry, Pattern, XObject
 //!                       dispatch, Encoding — see c15_hw.rs
+//!   c15.vw            the value side: the catch-all emptied / stripped of the tags before writing — see c15_value.rs
 //!   c15.rt.illtyped     the same dictionaries with one entry spoiled (drift only: outside the property's domain)
 //! Oracles (the REAL types against the two laws themselves):
 //!   c15.law1            write(read(write x)) == write x and the read succeeds, for every typed model incl. the
 //!                       leaf types the Lean model does not implement, and for the hand-written pairs
 //!                       (Date, Rectangle, Matrix, Dest, Action, Encoding, NumberTree, ColorSpace) from values
 //!                       constructed directly in Rust
+//!   c15.value-side    read(write x) = x for values built with an empty catch-all; c15.stream-values: typed streams built
+//!                       in memory with filter chains (filters, parameters, decoded data) — see c15_value.rs
 //!   c15.law2            models with a catch-all: every non-null entry of an accepted dictionary is present
 //!                       after read + write (unknown keys verbatim; recognised keys up to int/real, one-or-many
 //!                       and dereferencing)
